@@ -35,16 +35,19 @@ EXTENDS Naturals, Sequences, FiniteSets, TLC
 
 CONSTANTS MaxSet,     \* bound on the number of kinds set on top of the base
           Ordered,    \* TRUE: kinds are set in table order (one path per set)
-          Bases       \* set of sets of kinds a behaviour may start from (focus); {{}} = none
+          Bases,      \* set of sets of kinds a behaviour may start from (focus); {{}} = none
+          SendModes,  \* ways the composed message is sent through the client's ENCRYPTED path ({} = codec path only)
+          PlainApis   \* ways it is sent through the unencrypted path (control, not judged)
 
 VARIABLES msg,        \* kinds set on the message (the user's setters)
           base,       \* the kinds the behaviour started with (constant along a behaviour)
-          phase,      \* "compose" | "split" | "done"
+          phase,      \* "compose" | "split" | "done" (codec path) | "sentEnc" | "sentPlain" (client path)
           pub, sens, all,   \* kinds emitted by toXml(ScePublic) / serializeExtensions(SceSensitive) / toXml(SceAll)
           rec,        \* kinds whose values a fresh message holds after parse(public) ; parseExtensions(sensitive)
+          wire,       \* kinds of the <message/> stanza the client put on the wire (client path)
           hist        \* behaviour export
 
-mvars == <<msg, base, phase, pub, sens, all, rec>>
+mvars == <<msg, base, phase, pub, sens, all, rec, wire>>
 vars  == <<mvars, hist>>
 
 (* --- the table ---------------------------------------------------------- *)
@@ -199,7 +202,7 @@ SetSteps(B) == IF B = {} THEN <<>>
 Init ==
     /\ \E B \in Bases : msg = B /\ base = B /\ hist = SetSteps(B)
     /\ phase = "compose"
-    /\ pub = {} /\ sens = {} /\ all = {} /\ rec = {}
+    /\ pub = {} /\ sens = {} /\ all = {} /\ rec = {} /\ wire = {}
 
 Set(k) ==
     /\ phase = "compose"
@@ -209,7 +212,7 @@ Set(k) ==
     /\ k = "legacyDelay" => msg = {}      \* no setter: held only by a message that was parsed from one
     /\ msg' = msg \cup {k}
     /\ Log([a |-> "Set", k |-> k])
-    /\ UNCHANGED <<base, phase, pub, sens, all, rec>>
+    /\ UNCHANGED <<base, phase, pub, sens, all, rec, wire>>
 
 Split ==
     /\ phase = "compose"
@@ -218,7 +221,7 @@ Split ==
     /\ sens' = Emit("Sensitive", msg)
     /\ all'  = Emit("All", msg)
     /\ Log([a |-> "Split"])
-    /\ UNCHANGED <<msg, base, rec>>
+    /\ UNCHANGED <<msg, base, rec, wire>>
 
 Recover ==
     /\ phase = "split"
@@ -226,9 +229,44 @@ Recover ==
     \* rec: the kinds that are back *with their distinctive values* (a generated id is not one)
     /\ rec' = ({k \in pub : Accept("Public", k)} \cup {k \in sens : Accept("Sensitive", k)}) \ Implied(msg)
     /\ Log([a |-> "Recover"])
-    /\ UNCHANGED <<msg, base, pub, sens, all>>
+    /\ UNCHANGED <<msg, base, pub, sens, all, wire>>
+
+(* --- the client path ------------------------------------------------------- *)
+\* QXmppClient::sendSensitive (and reply() with e2ee metadata): the installed QXmppE2eeExtension::encryptMessage
+\* returns the message with an encrypted payload added AND ITS SENSITIVE FIELDS STILL SET -- that is the contract the
+\* library's own OMEMO manager follows; the client must put toXml(ScePublic) of it on the wire.
+\* style "plain": the extension adds nothing but the payload.  style "omemo": like QXmppOmemoManager it drops the
+\* user's fallback markers and, if there is a body or a trust message, sets the XEP-0380 marker (OMEMO 2, no name),
+\* an explicit fallback body and one fallback marker.  how: the task is finished at once / from the event loop.
+Payload == "e2eePayload"      \* the extension's encrypted element (not a field of the class: travels as an extension)
+AllSendModes == [api : {"sendSensitive", "reply"}, style : {"plain", "omemo"}, how : {"ready", "later"}]
+NoSends == {}
+AllPlainApis == {"send", "sendPacket"}
+BasesSend == {{}, {"body"}, {"body", "fallbackBody"}}
+
+Enc(style, S) ==
+    IF style = "plain" THEN S
+    ELSE LET c == "body" \in S \/ "trustMessage" \in S
+         IN  IF c THEN ((S \ SlotKinds("eme")) \cup {"emeOmemo2", "fallbackBody", "fallbackMarker"})
+                  ELSE S \ {"fallbackMarker"}
+
+Send(sm) ==
+    /\ phase = "compose"
+    /\ phase' = "sentEnc"
+    /\ wire' = Emit("Public", Enc(sm.style, msg)) \cup {Payload}
+    /\ Log([a |-> "Send", api |-> sm.api, style |-> sm.style, how |-> sm.how])
+    /\ UNCHANGED <<msg, base, pub, sens, all, rec>>
+
+\* control: QXmppClient::send / sendPacket never encrypt -- everything is on the wire, and the harness must see it there
+SendPlain(api) ==
+    /\ phase = "compose"
+    /\ phase' = "sentPlain"
+    /\ wire' = Emit("All", msg)
+    /\ Log([a |-> "SendPlain", api |-> api])
+    /\ UNCHANGED <<msg, base, pub, sens, all, rec>>
 
 Next == (\E k \in Kinds : Set(k)) \/ Split \/ Recover
+        \/ (\E sm \in SendModes : Send(sm)) \/ (\E api \in PlainApis : SendPlain(api))
 Spec == Init /\ [][Next]_vars
 
 (* --- properties (C17), over observable quantities ------------------------- *)
@@ -255,17 +293,28 @@ Cnt(S) == [k \in Kinds |-> IF k \in S THEN 1 ELSE 0]
 NoLeak    == phase # "compose" => P_NoLeak(pub, pub)
 Partition == phase # "compose" => P_Partition(Kinds, Cnt(pub), Cnt(sens), Cnt(all))
 Recovered == phase = "done" => P_Recover(msg, rec)
+\* client path: (1) nothing sensitive or unknown on the wire next to the payload; (2) every public element of the
+\* message the extension returned is on the wire exactly as often as in its unsplit form (the sensitive ones are in
+\* the payload, so public + payload = the message); cw, ca: occurrence counts on the wire / in toXml(SceAll)
+O_WirePublic(dom, cw, ca) ==
+    {k \in dom : k \in Kinds /\ Part(k) = "Public" /\ k \notin SplitOnly /\ cw[k] # ca[k]}
+WireNoLeak == phase = "sentEnc" => P_NoLeak(wire \ {Payload}, wire \ {Payload})
+WirePublic == phase = "sentEnc" =>
+    O_WirePublic(Kinds, Cnt(wire), Cnt(Emit("All", Enc(hist[Len(hist)].style, msg)))) = {}
 \* accepting mirrors emitting: an element is read in the mode it is written in
 ASSUME Mirror == \A m \in Modes : \A k \in Kinds : Accept(m, k) <=> (k \in Emit(m, {k}))
 TypeOK ==
-    /\ msg \subseteq Kinds /\ phase \in {"compose", "split", "done"}
+    /\ msg \subseteq Kinds /\ phase \in {"compose", "split", "done", "sentEnc", "sentPlain"}
+    /\ wire \subseteq Kinds \cup {Payload}
     /\ pub \subseteq Kinds /\ sens \subseteq Kinds /\ all \subseteq Kinds /\ rec \subseteq Kinds
     /\ Len(KT) = Cardinality(Kinds)
 
 Reinit ==
     /\ msg' = {} /\ base' = {} /\ phase' = "compose"
-    /\ pub' = {} /\ sens' = {} /\ all' = {} /\ rec' = {}
+    /\ pub' = {} /\ sens' = {} /\ all' = {} /\ rec' = {} /\ wire' = {}
     /\ hist' = <<>>
 
+\* the client-path configurations do not repeat the codec path
+ClientOnly == phase \notin {"split", "done"}
 View == mvars
 =============================================================================
